@@ -121,6 +121,22 @@ def explore(ctx):
         for _ in range({"quick": 40, "thorough": 600, "search": 100}[tier]):
             lines.append(server_burst(rng, "b%d" % n)); n += 1
     if not ctx.get("replay"):
+        # the writer is stuck inside Write (peer not reading), a second caller is blocked at the hand-off behind it, and a THIRD
+        # (fourth ...) call is cancelled / times out: it must return at once, whoever else is stuck
+        for rep in range({"quick": 6, "thorough": 60, "search": 12}[tier]):
+            how = rng.choice(["cancel", "deadline"])
+            extra_calls = 1 + rng.below(3)
+            s = ["stallw/on", scn.call(1, nowait=True), "waitinwrite", scn.call(2, nowait=True), "sleep/2"]
+            victims = []
+            for j in range(extra_calls):
+                c = 3 + j
+                victims.append(c)
+                s.append(scn.call(c, timeout=(15 if how == "deadline" else 0), nowait=True))
+                s.append("sleep/1")
+            for c in victims:
+                s.append(scn.cancel(c) if how == "cancel" else "await/c%d" % c)
+            s += ["stallw/off", "settle", scn.cancel(1), scn.cancel(2), "settle"]
+            lines.append(scn.line("scn", "q%d" % rep, s, extra="nt=1 family=cancel-behind-stuck-writer"))
         k = 0
         for rep in range({"quick": 2, "thorough": 20, "search": 4}[tier]):
             for when in ("inflight", "afterwrite"):
